@@ -462,6 +462,34 @@ def translate_proto(cond_src, utils_src):
             f"pr_init_guarded := {E.enc_bool(guarded)} |}}.\n")
 
 
+def translate_add_schema(schema_src):
+    tree = ast.parse(schema_src)
+    cls = [n for n in tree.body if isinstance(n, ast.ClassDef) and n.name == "Schema"]
+    if len(cls) != 1:
+        raise Refused("class Schema not found")
+    fn = find_method(cls[0], "add_schema")
+    body = [s for s in fn.body if not (isinstance(s, ast.Expr) and isinstance(s.value, ast.Constant))]
+    if len(body) != 2 or not isinstance(body[0], ast.For):
+        raise Refused("Schema.add_schema: expected a loop over the added rules followed by the re-sort")
+    loop = body[0]
+    if ast.unparse(loop.iter) != "schema.rules" or not isinstance(loop.target, ast.Name):
+        raise Refused("Schema.add_schema: loop header")
+    rv = loop.target.id
+    if ast.unparse(body[1]) != "self.rules = sorted(self.rules, key=lambda i: len(i.path))":
+        raise Refused("Schema.add_schema: re-sort statement")
+    stmts = [ast.unparse(s).replace("\n", " ") for s in loop.body]
+    copy_form = [f"self.rules.append(Rule(path=root_path / {rv}.path, condition={rv}.condition, cast={rv}.cast, doc={rv}.doc))"]
+    rebind_form = [f"{rv}.path = root_path / {rv}.path", f"self.rules.append({rv})"]
+    norm = [" ".join(x.split()) for x in stmts]
+    if norm == copy_form:
+        copies = True
+    elif norm == rebind_form:
+        copies = False
+    else:
+        raise Refused(f"Schema.add_schema: loop body {norm}")
+    return f"Definition add_schema_proto : as_proto := {{| as_copies := {E.enc_bool(copies)} |}}.\n"
+
+
 # ------------------------------------------------------------------------------------
 # lookup tables of the spec parsers
 
@@ -715,8 +743,9 @@ def main():
     if write_if_changed(os.path.join(GEN_DIR, "TablesGen.v"), text):
         changed.append("TablesGen.v")
     proto = translate_proto(read("valida/conditions.py"), read("valida/utils.py"))
-    text = HEADER.format(src="valida/conditions.py, valida/utils.py").replace(
-        "From Valida Require Import Py Lang Defs.", "From Valida Require Import Py Lang Defs Cond CondHeap.") + proto
+    proto += translate_add_schema(read("valida/schema.py"))
+    text = HEADER.format(src="valida/conditions.py, valida/utils.py, valida/schema.py").replace(
+        "From Valida Require Import Py Lang Defs.", "From Valida Require Import Py Lang Defs Cond CondHeap SchemaHeap.") + proto
     if write_if_changed(os.path.join(GEN_DIR, "ProtoGen.v"), text):
         changed.append("ProtoGen.v")
     st = translate_spec_tables(read("valida/conditions.py"), read("valida/datapath.py"), read("valida/casting.py"))
